@@ -65,6 +65,10 @@ def scenarios(draw):
                 n += 1
                 t["id"] = "transcript%d.%s.%s" % (n, g["chr"], src.choice(["nic", "nnic"]))
             per_chr[g["chr"]] = n
+    elif annotated and src.bool(0.4):
+        # gene symbols in lower case (they sort after IsoQuant's own "novel_gene_..." ids)
+        for i, g in enumerate(sc["genes"]):
+            g["id"] = src.choice(["sox", "tp", "abc", "zfp", "pax"]) + str(i + 1)
     sc["opts"] = common_opts(src, annotated)
     sc.pop("truth", None)
     return sc
